@@ -25,16 +25,16 @@ class ExpressionParser(SubParser):
         return True
 
     def _atom(self) -> bool:
-        if str(self.current_token) == '(':
+        if self.current_token.is_mark('('):
             self.next_token()
             if not self.expression():
                 return False
-            if self.current_token != ')':
+            if not self.current_token.is_mark(')'):
                 return self.token_error('Unmatched parenthesis: {}')
             return self.next_token()
 
-        uminus = str(self.current_token) == '-'
-        if str(self.current_token) in '+-':
+        uminus = self.current_token.is_mark('-')
+        if self.current_token.is_mark('+', '-'):
             self.next_token()
             if not self._atom():
                 return False
